@@ -229,6 +229,21 @@ func sameValue(a, b ssa.Value) bool {
 	if a == b {
 		return true
 	}
+	// a parameter of a helper and the argument bound to it in the other value's function
+	if pa, ok := a.(*ssa.Parameter); ok {
+		if in, ok := b.(ssa.Instruction); ok && in.Parent() != pa.Parent() {
+			if arg := boundArgument(pa, in.Parent()); arg != nil && arg != a {
+				return sameValue(arg, b)
+			}
+		}
+	}
+	if pb, ok := b.(*ssa.Parameter); ok {
+		if in, ok := a.(ssa.Instruction); ok && in.Parent() != pb.Parent() {
+			if arg := boundArgument(pb, in.Parent()); arg != nil && arg != b {
+				return sameValue(a, arg)
+			}
+		}
+	}
 	ka, kb := exprKey(a), exprKey(b)
 	return ka != "" && ka == kb
 }
@@ -384,7 +399,7 @@ func (f *funcFacts) transitiveCDeps(b *ssa.BasicBlock, moduloErr bool) []cond {
 
 // dominatingConds returns the branch conditions known to hold on entry to b
 // because a dominating If's edge dominates b.
-func (f *funcFacts) dominatingConds(b *ssa.BasicBlock) []cond {
+func (f *funcFacts) baseDominatingConds(b *ssa.BasicBlock) []cond {
 	if c, ok := f.domConds[b]; ok {
 		return c
 	}
@@ -531,7 +546,7 @@ type regionPath struct {
 // condSets returns alternative sets of conditions such that on every execution
 // reaching b at least one set holds entirely (path-sensitive refinement of
 // dominatingConds, bounded; falls back to the dominating conditions).
-func (f *funcFacts) condSets(b *ssa.BasicBlock) [][]cond {
+func (f *funcFacts) baseCondSets(b *ssa.BasicBlock) [][]cond {
 	var out [][]cond
 	for _, s := range f.condSetsP(b) {
 		out = append(out, s.conds)
@@ -546,7 +561,7 @@ func (f *funcFacts) condSetsP(b *ssa.BasicBlock) []condSetP {
 	if r, ok := f.csMemo[b]; ok {
 		return r
 	}
-	fallback := []condSetP{{conds: f.dominatingConds(b)}}
+	fallback := []condSetP{{conds: f.baseDominatingConds(b)}}
 	f.csMemo[b] = fallback // cycle guard
 	d := b.Idom()
 	if d == nil {
@@ -560,7 +575,7 @@ func (f *funcFacts) condSetsP(b *ssa.BasicBlock) []condSetP {
 		return fallback
 	}
 	if len(upper)*len(paths) > maxCondSets {
-		upper = []condSetP{{conds: f.dominatingConds(d)}}
+		upper = []condSetP{{conds: f.baseDominatingConds(d)}}
 	}
 	if len(upper)*len(paths) > maxCondSets {
 		return fallback
@@ -758,4 +773,56 @@ func sentinelGlobal(g *ssa.Global) bool {
 		return true
 	}
 	return false
+}
+
+// dominatingConds: the branch conditions known to hold on entry to b, plus what the success / true
+// result of a repository helper implies (one level, see summaries.go).
+func (f *funcFacts) dominatingConds(b *ssa.BasicBlock) []cond {
+	base := f.baseDominatingConds(b)
+	var out []cond
+	for _, c := range base {
+		if call, idx, errForm, ok := calleeOfCondition(c); ok {
+			out = append(out, summaryDominating(call, idx, errForm)...)
+		}
+	}
+	if len(out) == 0 {
+		return base
+	}
+	return append(append([]cond{}, base...), out...)
+}
+
+// condSets: alternative condition sets for b, each extended by the alternatives of the helper summaries it contains.
+func (f *funcFacts) condSets(b *ssa.BasicBlock) [][]cond {
+	base := f.baseCondSets(b)
+	var out [][]cond
+	for _, set := range base {
+		alts := [][]cond{set}
+		for _, c := range set {
+			call, idx, errForm, ok := calleeOfCondition(c)
+			if !ok {
+				continue
+			}
+			ss := summarySets(call, idx, errForm)
+			if len(ss) == 0 {
+				continue
+			}
+			if len(alts)*len(ss) > maxCondSets {
+				// too many alternatives: keep the conditions common to all of them
+				dom := summaryDominating(call, idx, errForm)
+				for i := range alts {
+					alts[i] = append(append([]cond{}, alts[i]...), dom...)
+				}
+				continue
+			}
+			var next [][]cond
+			for _, a := range alts {
+				for _, s2 := range ss {
+					next = append(next, append(append([]cond{}, a...), s2...))
+				}
+			}
+			alts = next
+		}
+		out = append(out, alts...)
+	}
+	return out
 }
